@@ -642,4 +642,70 @@ PROPS["C11"] = dict(
            dict(engine="e1", harness="c11_builders", weight=1)],
 )
 
+PROPS["C20"] = dict(
+    level="exploration",
+    engine_name="appx: input x configuration enumeration over the real "
+                "application binaries",
+    rule="c20_apps.py: the 11 Lonestar CPU applications (bfs, sssp, "
+         "connected-components, minimum-spanningtree, triangle-counting, "
+         "k-core, pagerank-pull, pagerank-push, maximal-independentset, "
+         "maximum-cardinality-matching, preflowpush) are built from the "
+         "working tree with CMake+Ninja (Release) and run as processes. One "
+         "case per (app, algorithm variant): 70 cases = every value of every "
+         "algorithm-selecting option (-algo, -exec, -detBase/-detDisjoint, "
+         "-pfpAlgo/-ffAlgo/-abmpAlgo x -serial/-parallel, -relabel, "
+         "-useHLOrder, -useUnitCapacity, -useSymmetricDirectly, sssp -delta "
+         "13/1, pagerank -tolerance 1e-3/1e-5, mst with/without "
+         "-symmetricGraph) x -t in {1,2,4} x EVERY input of a fixed list "
+         "inside the app's documented domain: all labelled digraphs / "
+         "symmetric graphs / bipartite graphs below a size (quick: n<=2 all, "
+         "n=3 or 4 by a prime stride through the edge-mask order; thorough: "
+         "digraphs n<=3 all + n=4 by stride, symmetric n<=4 all + n=5 by "
+         "stride, bipartite up to 2x3 all + 3x3 by stride, with and without "
+         "self loops where the app allows them), weights {1,2,7} by a fixed "
+         "rule of the endpoints, source/sink at both ends of the id order, "
+         "plus a structured family of 39 graphs up to 64 nodes (paths, "
+         "stars, cliques, cycles, two components, barbell, grids, heavy "
+         "tail, DAGs, layered, bipartite, parallel-edge copies) and one "
+         "601-node star that crosses the 256/512-edge tile sizes. The answer "
+         "the app PRINTS is compared with an independent Python reference "
+         "(networkx BFS / Dijkstra / Hopcroft-Karp / max-flow, union-find, "
+         "Kruskal, brute-force triangles, peeling, float64 power iteration "
+         "with tolerance-derived bounds, feasible sizes of maximal "
+         "independent sets by enumeration / MILP). A crash, abort, failed "
+         "self-verification, missing result line or time-out is a violation "
+         "too. executions = app processes run and checked; non-trivial = "
+         "graph with >=2 nodes and >=1 edge and -t>=2",
+    bound_note="bounded-exhaustive over the listed inputs x variants x "
+               "{1,2,4} threads (cells: inputs, space = planned runs); NOT "
+               "every graph below a size for n=4/5 (fixed strides, stated "
+               "per app in harness/c20_apps.py); bfs/sssp report one node's "
+               "distance per run (rotating with -t) plus #visited, max and "
+               "sum; cc prints counts and largest size only; independent set "
+               "prints only its cardinality; after 2 time-outs the rest of a "
+               "case is skipped (skipped_after_hangs)",
+    assumptions=[
+        "thread schedules inside an application run are NOT controlled "
+        "(schedules: uncontrolled in every cell); a failing multi-threaded "
+        "run is repeated 5 times and the repeat count is reported",
+        "Afforest variants of connected-components draw from "
+        "std::random_device; not controlled",
+        "app processes run under a 4-CPU affinity mask with "
+        "GALOIS_DO_NOT_BIND_THREADS=1 (the Galois runtime sees a 4-CPU "
+        "machine), at most 12 app threads at a time",
+        "distributed applications are not covered here"],
+    deadline=dict(quick=240, thorough=1800),
+    technique="bounded-exhaustive enumeration of inputs x algorithm variants "
+              "x thread counts on the real application binaries against "
+              "independent Python references",
+    level_text="every listed input x every algorithm variant x -t 1/2/4 runs "
+               "through the real application binary and its printed answer "
+               "is compared with an independent reference",
+    level_note="inputs x configurations are enumerated, schedules are not "
+               "(DESIGN.md 9); level exploration, not model_checking",
+    design_ref="DESIGN.md 3, 6.1, 7/C20, 9",
+    parts=[dict(engine="py", harness="c20_apps",
+                script="harness/c20_apps.py")],
+)
+
 NOT_APPLICABLE = {}
